@@ -30,7 +30,7 @@ impl c2pa::AsyncSigner for AsyncWrap {
     fn reserve_size(&self) -> usize { self.0.reserve_size() }
 }
 
-struct Asset { mime: &'static str, fmt: &'static str, bytes: Vec<u8>, title: String }
+struct Asset { mime: &'static str, fmt: &'static str, bytes: Vec<u8>, title: String, clean_of: Option<usize> }
 
 fn settings_json() -> Value { json!({"verify": {"remote_manifest_fetch": false}}) }
 
@@ -204,16 +204,33 @@ pub fn run(args: &[String]) {
                             match rel_of(k) { "parentOf" => actions.push(json!({"action": "c2pa.opened", "parameters": {"ingredientIds": [format!("ING{}", k + 1)]}})),
                                               "componentOf" => actions.push(json!({"action": "c2pa.placed", "parameters": {"ingredientIds": [format!("ING{}", k + 1)]}})), _ => {} }
                         }
-                        let mut def = json!({"title": title, "format": mime, "claim_generator_info": [{"name": "vh", "version": "0.1"}],
+                        let with_icon = (vid + oi) % 3 == 0;
+                        let cgi = if with_icon { json!({"name": "vh", "version": "0.1", "icon": {"format": "image/jpeg", "identifier": "icon.jpg"}}) } else { json!({"name": "vh", "version": "0.1"}) };
+                        let mut def = json!({"title": title, "format": mime, "claim_generator_info": [cgi],
                             "assertions": [{"label": "c2pa.actions", "data": {"actions": actions}}, {"label": "org.vh.test", "data": {"k": idx}}]});
                         if with_thumb { def["thumbnail"] = json!({"format": "image/jpeg", "identifier": "thumb.jpg"}); }
                         let mut b = Builder::from_context(ctx(&settings_json())).with_definition(def.to_string().as_str()).map_err(|e| format!("definition:{}", err_kind(&e)))?;
                         if with_thumb { b.add_resource("thumb.jpg", Cursor::new(fixture("thumbnail.jpg"))).map_err(|e| format!("resource:{}", err_kind(&e)))?; }
+                        if with_icon { b.add_resource("icon.jpg", Cursor::new(fixture("thumbnail.jpg"))).map_err(|e| format!("resource:{}", err_kind(&e)))?; }
                         let mut facts = vec![];
                         for (k, a) in ings.iter().enumerate() {
                             let rel = rel_of(k);
                             let (imime, ibytes, ititle) = if *a == 0 { ("image/jpeg", fixture("no_manifest.jpg"), "plain".to_string()) } else { (lib[*a - 1].mime, lib[*a - 1].bytes.clone(), lib[*a - 1].title.clone()) };
-                            let ij = json!({"title": format!("ing{}:{}", k + 1, ititle), "relationship": rel, "label": format!("ING{}", k + 1)}).to_string();
+                            let mut ijv = json!({"title": format!("ing{}:{}", k + 1, ititle), "relationship": rel, "label": format!("ING{}", k + 1)});
+                            // every third signed ingredient is described by a definition kept from an earlier import of the clean
+                            // original (it carries that import's validation results): the stream, not the JSON, must decide
+                            if *a > 0 && (vid + k) % 3 == 0 {
+                                let from = lib[*a - 1].clean_of.unwrap_or(*a);
+                                let mut b0 = Builder::from_context(ctx(&settings_json())).with_definition(simple_manifest_json("scratch", "image/jpeg").to_string().as_str()).map_err(|e| format!("definition:{}", err_kind(&e)))?;
+                                let mut s0 = Cursor::new(lib[from - 1].bytes.clone());
+                                if let Ok(ing0) = b0.add_ingredient_from_stream(ijv.to_string(), lib[from - 1].mime, &mut s0) {
+                                    if let Ok(mut kept) = serde_json::to_value(&*ing0) {
+                                        kept["title"] = ijv["title"].clone(); kept["relationship"] = ijv["relationship"].clone(); kept["label"] = ijv["label"].clone();
+                                        ijv = kept;
+                                    }
+                                }
+                            }
+                            let ij = ijv.to_string();
                             let mut s = Cursor::new(ibytes.clone());
                             let r = if fl == "async" { rt.block_on(b.add_ingredient_from_stream_async(ij, imime, &mut s)).map(|_| ()) } else { b.add_ingredient_from_stream(ij, imime, &mut s).map(|_| ()) };
                             r.map_err(|e| format!("ingredient{}:{}", k + 1, err_kind(&e)))?;
@@ -238,7 +255,7 @@ pub fn run(args: &[String]) {
                     }));
                     match res {
                         Ok(Ok((bytes, facts))) => {
-                            let a = Asset { mime, fmt, bytes, title: title.clone() };
+                            let a = Asset { mime, fmt, bytes, title: title.clone(), clean_of: None };
                             let d = read_asset(&a, "sync", &rt);
                             // C39 facts: manifests carried byte-identically; recorded validation vs stand-alone read
                             let pstore = c2pa::jumbf_io::load_jumbf_from_memory(mime, &a.bytes).map(|s| manifest_boxes(&s)).unwrap_or_default();
@@ -267,7 +284,7 @@ pub fn run(args: &[String]) {
                 "T" => {
                     let i = o["i"].as_u64().unwrap() as usize;
                     let a = &lib[i - 1];
-                    let t = Asset { mime: a.mime, fmt: a.fmt, bytes: tamper(a), title: a.title.clone() };
+                    let t = Asset { mime: a.mime, fmt: a.fmt, bytes: tamper(a), title: a.title.clone(), clean_of: Some(i) };
                     let d = read_asset(&t, "sync", &rt);
                     steps.push(json!({"op": "T", "asset": lib.len() + 1, "of": i, "fmt": a.fmt, "ok": true}));
                     first_read.push(d);
@@ -322,7 +339,7 @@ pub fn fresh(args: &[String]) {
         let (i, mime) = spec.split_once('=').unwrap();
         let mime: &'static str = Box::leak(mime.to_string().into_boxed_str());
         let bytes = std::fs::read(format!("{dir}/{i}")).unwrap_or_default();
-        let a = Asset { mime, fmt: "", bytes, title: String::new() };
+        let a = Asset { mime, fmt: "", bytes, title: String::new(), clean_of: None };
         out.emit(&read_asset(&a, "sync", &rt));
     }
 }
